@@ -100,7 +100,8 @@ impl IoInner {
 #[derive(Debug, Clone)]
 pub struct MemIo(pub Arc<Mutex<IoInner>>);
 
-pub struct Reactor(pub Box<dyn FnMut(&[u8]) -> Vec<u8> + Send>);
+/// called with everything written so far; returns (bytes to make readable, close the read side)
+pub struct Reactor(pub Box<dyn FnMut(&[u8]) -> (Vec<u8>, bool) + Send>);
 
 impl std::fmt::Debug for Reactor {
     fn fmt(&self, f: &mut std::fmt::Formatter) -> std::fmt::Result {
@@ -163,9 +164,12 @@ impl AsyncWrite for MemIo {
                 g.out.extend_from_slice(buf);
                 if let Some(mut r) = g.reactor.take() {
                     let all = g.out.clone();
-                    let resp = (r.0)(&all);
+                    let (resp, eof) = (r.0)(&all);
                     g.reactor = Some(r);
                     g.deliver(&resp);
+                    if eof {
+                        g.set_eof();
+                    }
                 }
                 Poll::Ready(Ok(buf.len()))
             }
